@@ -156,6 +156,8 @@ Definition sample_tree : list item :=
     IClass true "Pose2" [ MC []; MC [(TPlain (tn [] "double") false PNone true, "x"); (TPlain (tn ["gtsam"] "Rot2") true PRef false, "r")];
                           MM (TPlain (tn [] "double") false PNone true) "norm" [] true;
                           MM (TPlain (tn [] "void") false PNone true) "scale" [(TPlain (tn [] "double") false PNone true, "s")] false;
+                          MS (TPlain (tn ["gtsam"] "Pose2") false PNone false) "Identity" [];
+                          MS (TPlain (tn [] "double") false PNone true) "Distance" [(TPlain (tn ["gtsam"] "Pose2") true PRef false, "a")];
                           MP (TPlain (tn ["gtsam"] "Rot2") false PNone false) "rot"; ME "Kind" ["Rigid"; "Free"] ];
     IFnP (TPlain (tn ["gtsam"] "Pose3") true PRef false) (TPlain (tn [] "bool") false PNone true) "split" [(sample_type, "x")] ]%string.
 Example C01_items_nonvacuous :
@@ -170,7 +172,8 @@ Example C01_items_nonvacuous :
      " const gtsam :: Foo < int , std :: vector < Bar * > , const ns :: a :: K < double & > @ > & origin ; }" ++
      " namespace empty { virtual class Base ; } Key g ( ) ; } double h ( ) ;" ++
      " virtual class Pose2 { Pose2 ( ) ; Pose2 ( double x , const gtsam :: Rot2 & r ) ; double norm ( ) const ;" ++
-     " void scale ( double s ) ; gtsam :: Rot2 rot ; enum Kind { Rigid , Free } ; } ;" ++
+     " void scale ( double s ) ; static gtsam :: Pose2 Identity ( ) ; static double Distance ( const gtsam :: Pose2 & a ) ;" ++
+     " gtsam :: Rot2 rot ; enum Kind { Rigid , Free } ; } ;" ++
      " pair < const gtsam :: Pose3 & , bool > split ( const gtsam :: Foo < int , std :: vector < Bar * > , const ns :: a :: K < double & > @ > & x ) ;")%string /\
   print_decls (map idecl sample_tree) = Some (print_items sample_tree).
 Proof.
